@@ -17,7 +17,7 @@ type Value interface{}
 type StrV struct{ B []*Term }
 
 type SliceV struct {
-	Cells []*Cell // backing cells from this slice's offset to end of capacity
+	Cells  []*Cell // backing cells from this slice's offset to end of capacity
 	Len    int
 	Nil    bool
 	Frozen bool // read-only merged view (capacity unknown)
@@ -40,7 +40,7 @@ type IfaceV struct {
 type FuncV struct {
 	Fn      *ssa.Function
 	Free    []Value
-	Builtin string                                // engine-native function
+	Builtin string                               // engine-native function
 	Native  func(in *Interp, args []Value) Value // engine closure (e.g. context cancel)
 	id      int
 }
@@ -60,8 +60,8 @@ type MapObj struct {
 }
 
 type Cell struct {
-	V    Value
-	Kids []*Cell
+	V      Value
+	Kids   []*Cell
 	T      types.Type
 	id     int
 	Frozen bool
@@ -272,7 +272,7 @@ func newCell(t types.Type, v Value) *Cell {
 
 type EngineError struct{ Msg string }
 
-func (e *EngineError) Error() string { return e.Msg }
+func (e *EngineError) Error() string    { return e.Msg }
 func engineErr(msg string) *EngineError { return &EngineError{Msg: msg} }
 
 func describe(v Value) string {
